@@ -225,7 +225,7 @@ def r4_invalid(c, facts):
     else:
         c.bad(R, 'invalid-target-not-reported', 'an import for which is_valid is false is no longer reported as Kind::InvalidModule')
     loads = [x for x, _ in P.call_blocks(fn, 'module::Loader::load') if x in loop_blocks(fn)]
-    reach = fn.reachable_from(f_t[0], avoid=[t_t])
+    reach = fn.reachable_from(f_t[0], avoid=[t_t] + list(P.err_blocks(fn)))
     if any(x in reach for x in loads):
         c.bad(R, 'invalid-target-loaded', 'an invalid import target can still reach loader.load')
     else:
